@@ -260,6 +260,7 @@ class ObsScenario(NetScenario):
         elif kind == "trigger-error":
             st.terminal = True
             live = self.live(st)
+            st.final_from = ("error", len(w.sent))
             st.res.updated_state(Message(code=codes.INTERNAL_SERVER_ERROR, payload=b"gone"))
             w.loop.settle()
             for r in live:
@@ -267,6 +268,7 @@ class ObsScenario(NetScenario):
         elif kind == "trigger-last":
             # (a "last" mark is sticky: plain triggers that follow and get coalesced with it do not undo it)
             live = self.live(st)
+            st.final_from = ("last", len(w.sent))
             for o in list(st.res._observations):
                 o.trigger(None, is_last=True)
             w.loop.settle()
@@ -338,6 +340,8 @@ class ObsScenario(NetScenario):
             st.violations.append(v)
 
     def on_step(self, st, label):
+        if "/silent" in label or "/rst" in label or label.split(":")[0] in ("icmp", "shutdown", "dereg", "plain", "rereg"):
+            st.disturbed = True      # the observer (or the application) ended things its own way
         # timeouts: the monitor learns them from the token manager dropping the request of a silent observer
         for r in self.live(st):
             tm = st.srv.tman
@@ -378,6 +382,24 @@ class ObsScenario(NetScenario):
                     if v != st.res.version:
                         st.violations.append(Violation("latest-state-not-sent", "v%d" % st.res.version, last.decode(),
                                                        "interfaces.py:ObservableResource._render_to_pipe", {}, key="stale"))
+        # the notification that ends a registration (the unsuccessful one, the one marked last) is itself sent - also when it had
+        # to wait for the acknowledgement of the notification before it
+        fin = getattr(st, "final_from", None)
+        if fin is not None and not getattr(st, "disturbed", False) and not st.horizon_hit:
+            for r in st.regs:
+                if r.ended is None or r.ended[0] not in ("unsuccessful notification", "last notification"):
+                    continue
+                got = []
+                seen = set()
+                for i, sdg in enumerate(w.sent):
+                    if sdg.src == SRV and sdg.dst == r.obs.addr and sdg.data not in seen:
+                        seen.add(sdg.data)
+                        m = rc.decode(sdg.data)
+                        if i >= fin[1] and m[3] == r.token and m[1] >= 64 and (fin[0] == "last" or m[1] >= 128):
+                            got.append(m)
+                if not got:
+                    st.violations.append(Violation("final-notification-not-sent", "the %s notification reaches the observer" % fin[0],
+                                                   "nothing sent on the token after the trigger", "tokenmanager.py:process_request", {}, key="final-" + fin[0]))
         alive = [r for r in st.regs if r.ended is None]
         stuck = [r for r in st.regs if r.ended is not None and st.res.cancels.get(r.serial, 0) == 0]
         n = len(st.res._observations)
